@@ -155,3 +155,45 @@ def transition_law(ctx, cfg):
         ctx.ensure("p1_erases_everything", S.lor(S.ne(p, 1), SP.conj(S.eq(v, -1) for v in yv.reshape(-1))))
     else:
         ctx.ensure("p1_zeroes_everything", S.lor(S.ne(p, 1), SP.conj(S.eq(v, zero) for v in yv.reshape(-1))))
+
+
+# ================================================================================================ erasure symbol options (closed)
+@obligation("C12.erasure_symbol_options", function=F + ":BinaryErasureChannel.forward; " + F + ":BinaryErasureChannel.__init__",
+            configs=lambda tier: [Cfg("bec_symbol", s) for s in ("-1", "2", "0.5", "0", "inf", "-inf", "nan")], kind="ground", engine="ground")
+def erasure_symbol_options(cfg):
+    """every output position carries either the input symbol (unerased) or the configured erasure symbol - whatever that symbol is,
+    non-finite values included (nan is a common 'missing' marker): p = 0 is the identity, p = 1 erases everything, and for 0 < p < 1
+    every position that is not the erasure symbol equals its input exactly.  Closed: fixed seeds, {0,1} and {-1,+1} words, three
+    layouts; no statistics involved"""
+    import math
+
+    from kaira.channels.digital import BinaryErasureChannel
+
+    sym = float(cfg[1])
+    is_sym = (lambda t: torch.isnan(t)) if math.isnan(sym) else (lambda t: t == sym)
+    bad = []
+    g = torch.Generator().manual_seed(12)
+    for alpha in ("binary", "bipolar"):
+        for shape in ((64,), (4, 16), (2, 2, 8)):
+            x = torch.randint(0, 2, shape, generator=g).float()
+            if alpha == "bipolar":
+                x = 2 * x - 1
+            if sym in (0.0, 1.0, -1.0) and bool((x == sym).any()) and alpha == "binary" and sym in (0.0, 1.0):
+                continue  # an erasure symbol inside the alphabet cannot be told from data
+            for p in (0.0, 0.3, 0.7, 1.0):
+                torch.manual_seed(7)
+                try:
+                    y = BinaryErasureChannel(p, erasure_symbol=sym)(x)
+                except Exception as e:
+                    bad.append(f"p={p} {alpha} {shape}: raised {e!r}")
+                    continue
+                er = is_sym(y)
+                if tuple(y.shape) != tuple(x.shape):
+                    bad.append(f"p={p} {alpha} {shape}: shape {tuple(y.shape)}")
+                elif p == 0.0 and not torch.equal(y, x):
+                    bad.append(f"p=0 {alpha} {shape}: output differs from input at {int((y != x).sum())} positions (erasure symbol {sym})")
+                elif p == 1.0 and not bool(er.all()) and not (alpha == "bipolar" and sym == -1.0):
+                    bad.append(f"p=1 {alpha} {shape}: {int((~er).sum())} positions not erased")
+                elif not torch.equal(torch.where(er, x, y), x) and not (alpha == "bipolar" and sym == -1.0):
+                    bad.append(f"p={p} {alpha} {shape}: {int((torch.where(er, x, y) != x).sum())} unerased positions differ from the input (erasure symbol {sym})")
+    yield "output_is_input_or_erasure_symbol", not bad, "; ".join(bad[:3]) or f"erasure symbol {sym}: p in (0, .3, .7, 1), binary and bipolar words, 3 layouts"
